@@ -27,15 +27,22 @@ def iabs (a : Int) : Int := if a < 0 then -a else a
 def zDivT (a b : Int) : Int := a.tdiv b
 def zRemT (a b : Int) : Int := a.tmod b
 
+/-- negated magnitude `-|x|`: `if x.is_positive() { -x } else { x }` (never overflows on machine integers) -/
+def nabs (x : Int) : Int := if x > 0 then -x else x
+
 /-- `DivRound::div_round` (exact version, after fix F2):
 ```
-let quo = a / b; let rem = (a % b).abs();
-if rem >= b.abs() - &rem { if a.is_negative() == b.is_negative() { quo + 1 } else { quo - 1 } } else { quo }
+let quo = a / b; let rem = a % b;
+let nr = if rem.is_positive() { -rem } else { rem };
+let nb = if b.is_positive() { -b } else { b.clone() };
+if nr <= &nb - &nr { if a.is_negative() == b.is_negative() { quo + 1 } else { quo - 1 } } else { quo }
 ``` -/
 def zDivRoundT (a b : Int) : Int :=
   let quo := zDivT a b
-  let rem := iabs (zRemT a b)
-  if rem ≥ iabs b - rem then
+  let rem := zRemT a b
+  let nr := nabs rem
+  let nb := nabs b
+  if nr ≤ nb - nr then
     if (decide (a < 0)) == (decide (b < 0)) then quo + 1 else quo - 1
   else quo
 
